@@ -249,11 +249,12 @@ def _var_features(fn):
     feats = set()
     params = {a.arg for a in fn.args.args}
 
-    def names_in(nodes, ctx=None):
+    def names_in(nodes, ctx=None, skip=None):
         out = []
+        inside = set(id(m) for m in ast.walk(skip)) if skip is not None else ()
         for n in nodes:
             for m in ast.walk(n):
-                if isinstance(m, ast.Name) and (ctx is None or isinstance(m.ctx, ctx)):
+                if isinstance(m, ast.Name) and (ctx is None or isinstance(m.ctx, ctx)) and id(m) not in inside:
                     out.append(m.id)
         return out
 
@@ -265,7 +266,7 @@ def _var_features(fn):
                 tgt = s.target.id
                 if tgt in names_in(s.body, ast.Store):
                     feats.add("loopvar_escapes")
-                if tgt in names_in(rest + after_outer, ast.Load):
+                if tgt in names_in(rest + after_outer, ast.Load, skip=s):
                     feats.add("loopvar_escapes")
             if isinstance(s, ast.If):
                 scan(s.body, rest + after_outer)
@@ -436,6 +437,8 @@ def evaluate(case, stats=None, excl=frozenset()):
                 stats.discard("reference unsupported: " + e.reason)
             compared -= 1
             continue
+        if stats is not None:
+            stats.hist["calls_compared"] += 1
         if type(got) is not type(expect) or _obsval(got) != _obsval(expect):
             fail.update(stage="mismatch", got=_obsval(got), text="", exc="", frame="", chain="")
             fail["msg"] = "%s%r: CPython returns %r, the compiled IR returns %r" % (fname, jargs, expect, got)
@@ -514,16 +517,15 @@ def classify(case, msg):
     stage = fail["stage"]
     if stage == "python_to_ir raised":
         exc, text, frame = fail["exc"], fail["text"], fail["frame"]
-        if exc == "KeyError" and "flow_in_for" in feats and frame in ("verify_block", "verify_block_termination", "verify_instruction", "verify_function", "verify_phi") :
+        chain = fail["chain"]
+        if exc == "KeyError" and "flow_in_for" in feats and ("verify_function" in chain or "delete_unreachable" in chain):
             return KF_FORLATCH
-        if exc == "AssertionError" and frame == "store_value" and "loopvar_escapes" in feats:
+        if exc == "AssertionError" and frame in ("store_value", "gen_aug_assign") and "loopvar_escapes" in feats:
             return KF_LOOPVAR
         if exc == "AssertionError" and "does not dominate" in text and "addr_" in text:
             name = text.split("addr_", 1)[1].split(" ", 1)[0]
             if "nested_first_assign:" + name in feats:
                 return KF_ALLOCDOM
-            if "loopvar_escapes" in feats:
-                return None
         return None
     if stage == "mismatch":
         if "floordiv_differs" in fail["events"] and _model_value(case, fail, _TruncDiv) == fail["got"]:
@@ -562,7 +564,7 @@ class _Gen:
     # -- expressions -------------------------------------------------------
     def literal(self, ty):
         if ty == "int":
-            k = self.pick(SMALL_INTS) if self.chance(85) else self.pick(BIG_INTS)
+            k = self.pick(SMALL_INTS) if self.chance(92) else self.pick(BIG_INTS)
             if self.chance(15):
                 return "(0 - %d)" % k
             return str(k)
@@ -591,15 +593,15 @@ class _Gen:
         if ty == "int":
             op = self.pick(["+", "-", "*", "//", "+", "-"])
             a = self.expr(ty, env, depth - 1)
-            if op == "//" and self.chance(60):
+            if op == "//" and self.chance(93):
                 k = self.pick([1, 2, 3, 5, 7, 10, 16])
-                b = "(0 - %d)" % k if self.chance(35) else str(k)
+                b = "(0 - %d)" % k if self.chance(15) else str(k)
             else:
                 b = self.expr(ty, env, depth - 1)
         else:
             op = self.pick(["+", "-", "*", "/"])
             a = self.expr(ty, env, depth - 1)
-            if op == "/" and self.chance(60):
+            if op == "/" and self.chance(93):
                 b = repr(float(self.pick([1, 2, 3, 4, 8, 10]))) if self.chance(70) else "(0.0 - 2.0)"
             else:
                 b = self.expr(ty, env, depth - 1)
@@ -636,8 +638,8 @@ class _Gen:
             ty = env[n]
             op = self.pick(["+", "-", "*", "//"] if ty == "int" else ["+", "-", "*", "/"])
             rhs = self.expr(ty, env, 1)
-            if op in ("//", "/") and self.chance(70):
-                rhs = self.pick(["2", "3", "(0 - 2)", "7"]) if ty == "int" else self.pick(["2.0", "4.0", "0.5"])
+            if op in ("//", "/") and self.chance(94):
+                rhs = self.pick(["2", "3", "(0 - 2)", "7", "5", "2", "10"]) if ty == "int" else self.pick(["2.0", "4.0", "0.5"])
             out.append("%s%s %s= %s" % (ind, n, op, rhs))
         elif r < 17 and len(targets) >= 2:
             a = self.pick(targets)
@@ -663,7 +665,7 @@ class _Gen:
             self.statement(env, ro, out, ind, depth, loop, infor, ret_ty)
 
     def statement(self, env, ro, out, ind, depth, loop, infor, ret_ty):
-        flow_ok = depth < 3 and (not infor or self.flags["for_flow"])
+        flow_ok = depth < self.flags.get("depth", 3) and (not infor or self.flags["for_flow"])
         r = self.draw(st.integers(0, 99))
         ind2 = ind + "    "
         if not flow_ok or r < 42:
@@ -765,6 +767,11 @@ def int_args():
     return st.one_of(
         st.integers(-8, 8),
         st.integers(-8, 8),
+        st.integers(1, 6),
+        st.integers(-8, 8),
+        st.integers(-8, 8),
+        st.integers(1, 20),
+        st.integers(-100, 100),
         st.integers(-1000, 1000),
         st.sampled_from([2**31 - 1, -(2**31), 2**32, 2**62, -(2**62), I64_MAX, I64_MIN, 10**9, -(10**9)]),
     )
@@ -811,10 +818,11 @@ FLAG_OF = {"for_flow": KF_FORLATCH, "loopvar_escapes": KF_LOOPVAR, "branch_defin
 
 
 def _worker(arg):
-    seed, n = arg
+    seed, n, deep = arg
     stats = Stats()
     excl = open_ids()
     flags = make_flags(excl)
+    flags["depth"] = 4 if deep else 3
 
     def prop(case):
         try:
@@ -843,5 +851,5 @@ def _worker(arg):
 
 
 def run(ctx):
-    n = ctx.scale(2400, 100000)
-    ctx.pmap(_worker, [(subseed(ctx.seed, PID, w), n // 16) for w in range(16)])
+    n = ctx.scale(1600, 100000)
+    ctx.pmap(_worker, [(subseed(ctx.seed, PID, w), n // 16, not ctx.quick and w % 2 == 1) for w in range(16)])
